@@ -353,8 +353,8 @@ func TestFindings(t *testing.T) {
 }
 
 func TestRandom(t *testing.T) {
-	chkFault.Rapid(t, harness.Pick(1500, 8000))
-	chkSerial.Rapid(t, harness.Pick(4, 24))
+	chkFault.Rapid(t, harness.Pick(1500, 40000))
+	chkSerial.Rapid(t, harness.Pick(4, 80))
 }
 
 // TestPrefixSweep: every prefix x every fault kind for every function x framing x reply sizes (network clients).
